@@ -34,12 +34,50 @@ def bs_cases(rng, quick):
     return cases
 
 
+def integer_grids(rep):
+    """Whole-number sampling points (days 1..365, indices) given as INTEGER arrays: every family evaluates to what it gives on the
+    same points as floats (values of modulus below one must not be truncated to the grid's storage type)."""
+    from FDApy.misc.basis import _basis_bsplines, _basis_legendre, _basis_fourier, _basis_wiener
+    from FDApy.representation.basis import Basis
+    from FDApy.representation.argvals import DenseArgvals
+    rng = np.random.default_rng([C.seed(), 18, 13])
+    for rnd in range(2):
+        lo = int(rng.integers(0, 3))
+        xi = np.arange(lo, lo + int(rng.integers(12, 40)) + 1)
+        xf = xi.astype(float)
+        nf = int(rng.integers(3, 7))
+        fams = {"fourier": lambda x: _basis_fourier(x, n_functions=nf), "legendre": lambda x: _basis_legendre(x, n_functions=nf),
+                "wiener": lambda x: _basis_wiener(x, n_functions=nf), "bsplines": lambda x: _basis_bsplines(x, n_functions=nf + 2, degree=2),
+                "Basis(fourier)": lambda x: Basis(name="fourier", n_functions=nf, argvals=DenseArgvals({"input_dim_0": x})).values,
+                "Basis(legendre)": lambda x: Basis(name="legendre", n_functions=nf, argvals=DenseArgvals({"input_dim_0": x})).values}
+        bad = []
+        for name, f in fams.items():
+            with warnings.catch_warnings():
+                warnings.simplefilter("ignore")
+                try:
+                    want = np.asarray(f(xf.copy()), float)
+                except Exception:  # noqa: BLE001
+                    continue            # the family refuses this configuration for floats too: not this monitor's subject
+                try:
+                    got = np.asarray(f(xi.copy()), float)
+                except Exception as e:  # noqa: BLE001
+                    bad.append(f"{name} raised {type(e).__name__} on the integer-dtype grid: {str(e)[:80]}")
+                    continue
+            if got.shape != want.shape or not np.allclose(got, want, rtol=1e-10, atol=1e-10 * max(1.0, float(np.max(np.abs(want))))):
+                bad.append(f"{name} on the integer-dtype grid differs from the values on the same points as floats (max "
+                           f"{float(np.max(np.abs(got - want))) if got.shape == want.shape else float('nan'):.3g})")
+        rep.case(("integer-grid", rnd, xi.tobytes(), nf), kind="dtype/integer-grid")
+        if bad:
+            rep.violation("basis families on whole-number sampling points: " + "; ".join(bad), {"grid": xi.tolist(), "n_functions": nf})
+
+
 def run(rep, props, replay=None):
     from FDApy.misc.basis import _basis_bsplines, _basis_legendre, _basis_fourier, _basis_wiener
     from FDApy.representation.basis import Basis
     from FDApy.representation.argvals import DenseArgvals
     quick = C.tier() == "quick"
     rng = np.random.default_rng([C.seed(), 18])
+    integer_grids(rep)
     runq = C.CoqRun("C18", IMPORTS, shard=6)
     todo = []
     domains = [(0.0, 1.0), (-1.0, 1.0), (1.0, 365.0), (-2.0, 0.0), (100.0, 101.0), (-3.5, 0.25), (0.0, 2.5),
